@@ -22,8 +22,10 @@ RE_FLAGS = re.UNICODE | re.DOTALL
 EPOCH = datetime.datetime(1970, 1, 1)
 
 STRINGS = ['a', 'b', 'ab', 'abc', '', 'é', 'ß∂', '𝔘', 'x y', ' lead', 'trail ', '12', 'A', 'á', 'zz', "q'uote",
-           'back\\slash', 'new\nline', 'tab\t', '1.5', 'NULL', 'nan', 'True', '0', 'longer string here']
-INTS = [0, 1, -1, 2, 3, 7, 10, -10, 100, 255, 2 ** 31 - 1, -2 ** 31, 2 ** 53 + 1, -(2 ** 53) - 1, 2 ** 62, 5, 6]
+           'back\\slash', 'new\nline', 'tab\t', '1.5', 'NULL', 'nan', 'True', '0', 'longer string here',
+           'line\u2028sep', 'para\u2029', 'nel\u0085x', 'two  spaces  ']
+INTS = [0, 1, -1, 2, 3, 7, 10, -10, 100, 255, 2 ** 31 - 1, -2 ** 31, 2 ** 53 + 1, -(2 ** 53) - 1, 2 ** 62, 5, 6,
+        2 ** 53 + 3, -(2 ** 53) - 3, 2 ** 62 + 1, 2 ** 53 + 5]
 REALS = [0.0, -0.0, 1.0, -1.0, 0.5, -0.5, 1.5, 2.0, 3.0, 1e-300, -1e-300, 1e300, 0.1, 0.01, 100.0, 99.0, 101.0,
          float('inf'), float('-inf'), 2.5, 1e-9, 123456.789, -7.25, 10.0]
 DATES = [datetime.datetime(2020, 1, 2), datetime.datetime(1999, 12, 31, 23, 59, 59),
@@ -40,7 +42,11 @@ def gen_column(rng, t=None, n=None, small_pool=None):
     pool = {'bool': [True, False], 'int': INTS, 'real': REALS, 'string': STRINGS, 'date': DATES}[t]
     k = small_pool or rng.choice([1, 2, 3, len(pool)])
     sub = rng.sample(pool, min(k, len(pool)))
-    if t in ('int', 'real') and rng.random() < 0.4:
+    if t == 'int' and rng.random() < 0.12:
+        # integers that a double cannot represent: comparisons must not go through float
+        sub = rng.sample([2 ** 53 + 1, 2 ** 53 + 3, 2 ** 53 + 5, 2 ** 62 + 1, 2 ** 63 - 4, -(2 ** 53) - 3, -(2 ** 62) - 1],
+                         rng.choice([1, 2, 3]))
+    elif t in ('int', 'real') and rng.random() < 0.4:
         # one-signed data, so that sign classes other than "mixed" occur
         sgn = rng.choice([1, -1])
         sub = [v for v in sub if v == 0 or (v > 0) == (sgn > 0)] or [0]
@@ -375,7 +381,7 @@ def gen_constraints(rng, col, rich=True):
             out[kind] = {'value': b, 'precision': rng.choice([None, 'closed', 'open', 'fuzzy'])}
         elif kind in ('min_length', 'max_length'):
             ls = [len(x) for x in vals if isinstance(x, str)]
-            base = (min(ls) if kind == 'min_length' else max(ls)) if ls else 2
+            base = (min(ls) if kind == 'min_length' else max(ls)) if ls else rng.choice([0, 0, 1, 2])
             out[kind] = {'value': max(0, base + rng.choice([0, 0, 1, -1, 2]))}
         elif kind == 'sign':
             out[kind] = {'value': rng.choice(SIGNS)}
